@@ -206,6 +206,14 @@ def try_call(pt, acc, rng, a, b):
     f.__annotations__ = {"x": ann}
     try:
         sub = pt.Subroutine(pt.TealType.none)(f)
+        if rng.random() < .5:
+            # the same subroutine object is first called with a value of exactly the expected type: what that call leaves behind
+            # (caches keyed by argument position or Python class) must not widen the check for the next call
+            try:
+                sub(b.new_instance())
+                acc.counters["call_after_valid_call"] += 1
+            except Exception:
+                pass
         sub(inst)
         acc.counters["call_built"] += 1
         if not ok_layout:
